@@ -119,6 +119,7 @@ class C07(HistoryProfile):
   def config(self, rng, tier):
     cfg = super(C07, self).config(rng, tier)
     cfg["p_restart"] = self.p_restart * rng.choice([0.5, 1, 2])
+    cfg["formula_kinds"] = list(gen.DEFAULT_FORMULA_KINDS) + ["dictval", "dictval"]
     return cfg
 
   def check(self, sim, out, st):
